@@ -219,6 +219,8 @@ class U:
         if not hasattr(self.interp, "stubs"):
             self.interp.stubs = {}
         self.interp.stubs.update(names)
+        for n in names:
+            self.assumptions.add(f"external name `{n}` of {self.udef.file} replaced by a contract stub in unit {self.udef.name} (assumed contract of the library / collaborator)")
 
     def loop(self, relpath, qual, ordinal, spec):
         """Attach a LoopInvariant to the ordinal-th loop of a function (loops are numbered in execution order)."""
@@ -539,7 +541,7 @@ def run_unit(name, repo_root=None, want_canaries=True, timeout_ms=None):
                 out["functions"]["::".join(("auto-inlined",) + tuple(k))] = pr.u.interp.repo.module(k[0]).sha
             except Exception:
                 pass
-        out["assumptions"] = sorted(set(out["assumptions"]) | pr.u.assumptions)
+        out["assumptions"] = sorted(set(out["assumptions"]) | pr.u.assumptions | set(getattr(pr.ctx, "notes", [])))
         out["used_ops"] = sorted(set(out["used_ops"]) | pr.ctx.used_ops)
         for d in pr.u.dim_order:
             if d not in dim_names:
